@@ -118,6 +118,16 @@ def main():
         jsonschema.validate(m, json.load(open("/root/.vp/MANIFEST.schema.json")))
         print("MANIFEST valid;", len(checks), "checks,", len(na), "not claimed")
     except ImportError:
+        import shutil
+        import subprocess
+
+        vt = shutil.which("python3-vt")
+        if vt:
+            r = subprocess.run([vt, "-c", "import json, jsonschema; jsonschema.validate(json.load(open('%s')), "
+                                "json.load(open('/root/.vp/MANIFEST.schema.json'))); print('MANIFEST valid (python3-vt)')"
+                                % os.path.join(VERIF, "MANIFEST.json")], capture_output=True, text=True)
+            print((r.stdout + r.stderr).strip()[-500:])
+            return r.returncode
         print("jsonschema not available; wrote MANIFEST without validation")
 
 
